@@ -411,6 +411,14 @@ def integrate (step : StepFn K) (env : Nat → Flags) (fuel : Nat) (s : Sim K) (
   | (.blocked s', _) => .blocked s'
   | (.outOfFuel s', _) => .outOfFuel s'
 
+/-- `reb_simulation_integrate` with the argument check of fixes/C08-nan-target.diff: a NaN target is refused
+    with GENERIC_ERROR before anything is touched (`guard = false`: the code without the check, for which a
+    NaN target means integrating backwards for ever, every comparison with it being false). -/
+def integrateN (guard : Bool) (step : StepFn K) (env : Nat → Flags) (fuel : Nat) (s : Sim K) (tmax : K)
+    (tmaxInf : Bool) : Outcome K :=
+  if guard && fne tmax tmax then .done { s with status := stGENERIC_ERROR }
+  else integrate step env fuel s tmax tmaxInf
+
 /-- `loop` with key presses: `ctl k` are the keys delivered while the integrator is at boundary `k`
     (before `reb_check_exit` is entered, and while it waits) -/
 def loopP (step : StepFn K) (env : Nat → Flags) (ctl : Nat → List Ctl × List Ctl) (tmax : K) (tmaxInf : Bool) :
